@@ -333,7 +333,7 @@ def gen_run_case(rng, line=None):
     k = rng.randint(2, 6)
     n = rng.randint(2, 6)
     nsuites = rng.choice([1, 1, 2])
-    suites = [{"name": "s%d" % i, "tests": [], "setup": None} for i in range(nsuites)]
+    suites = [{"name": "s%d" % i, "tests": [], "setup": None, "teardown": None} for i in range(nsuites)]
     heavy = line is not None and rng.random() < 0.5     # attachment-heavy scripts: pre-emption inside prepare_attachment
     for i in range(k):
         nthr = rng.choice([0, 0, 1, 1, 2, 3])
@@ -342,8 +342,15 @@ def gen_run_case(rng, line=None):
              "threads": [gen_child(rng, rng.randint(1, 5), heavy) for _ in range(nthr)]}
         suites[rng.randrange(nsuites)]["tests"].append(t)
     suites = [s for s in suites if s["tests"]]
-    if rng.random() < 0.3:
-        rng.choice(suites)["setup"] = gen_child(rng, rng.randint(1, 3))
+    # hooks that log at the suite-setup / suite-teardown locations while tests of other suites run; a setup hook
+    # may start an lcc.Thread itself (Thread.__init__ then fires the held SuiteSetupStart event)
+    if rng.random() < 0.35:
+        sd = rng.choice(suites)
+        nthr = rng.choice([0, 0, 1])
+        sd["setup"] = {"main": gen_script(rng, nthr, rng.randint(1, 4), heavy), "threads": [gen_child(rng, rng.randint(1, 3), heavy) for _ in range(nthr)]}
+    if rng.random() < 0.25:
+        sd = rng.choice(suites)
+        sd["teardown"] = {"main": gen_child(rng, rng.randint(1, 3), heavy), "threads": []}
     width = 1
     if line is not None:
         width = rng.choice([2, 3, 4])
@@ -392,9 +399,15 @@ def real_run(case):
         if sd.get("setup"):
             def mk_setup(sd):
                 def setup_suite():
-                    Emitter(run, sd["name"] + "/setup", "Setup suite").main(sd["setup"], [])
+                    Emitter(run, sd["name"] + "/setup", "Setup suite").main(sd["setup"]["main"], sd["setup"]["threads"])
                 return setup_suite
             suite.add_hook("setup_suite", mk_setup(sd))
+        if sd.get("teardown"):
+            def mk_teardown(sd):
+                def teardown_suite():
+                    Emitter(run, sd["name"] + "/teardown", "Teardown suite").main(sd["teardown"]["main"], sd["teardown"]["threads"])
+                return teardown_suite
+            suite.add_hook("teardown_suite", mk_teardown(sd))
         for ti, td in enumerate(sd["tests"]):
             path = sd["name"] + "." + td["name"]
 
@@ -654,7 +667,8 @@ class RunStream(C.Stream):
               "threads": [[["att", "content"], ["log", "info"]]]}]}]},
         # more tests than workers, free running
         {"n": 2, "line": None, "sched": {"strategy": "free", "width": 1, "seed": 2},
-         "suites": [{"name": "s0", "setup": [["log", "info"], ["att", "content"]], "tests": [
+         "suites": [{"name": "s0", "setup": {"main": [["log", "info"], ["spawn", 0], ["att", "content"]], "threads": [[["log", "info"]]]},
+                     "teardown": {"main": [["log", "info"]], "threads": []}, "tests": [
              {"name": "t%d" % i, "main": [["log", "info"], ["att", "content"], ["step"], ["url"], ["log", "info"]], "threads": []}
              for i in range(5)]}]},
     ]
@@ -718,6 +732,10 @@ class RunStream(C.Stream):
                 f.append("line-switched")
         if any(s.get("setup") for s in case["suites"]):
             f.append("suite-setup-logs")
+        if any(s.get("setup") and s["setup"]["threads"] for s in case["suites"]):
+            f.append("suite-setup-lccthread")
+        if any(s.get("teardown") for s in case["suites"]):
+            f.append("suite-teardown-logs")
         if any(e["k"] == "att" for _, r in iter_results(obs["report"]) for st in r["steps"] for e in st["entries"]):
             f.append("attachments")
         if interleaves(obs["fired"]):
@@ -736,10 +754,11 @@ class RunStream(C.Stream):
                     del c["suites"][si]["tests"][ti]
                     c["suites"] = [x for x in c["suites"] if x["tests"]]
                     yield c
-            if s.get("setup"):
-                c = copy.deepcopy(case)
-                c["suites"][si]["setup"] = None
-                yield c
+            for hook in ("setup", "teardown"):
+                if s.get(hook):
+                    c = copy.deepcopy(case)
+                    c["suites"][si][hook] = None
+                    yield c
         for si, s in enumerate(suites):
             for ti, t in enumerate(s["tests"]):
                 for ai, a in enumerate(t["main"]):
